@@ -706,18 +706,10 @@ var _ uuid.UUID
 //@ func (*storage.partition).loadRaft
 //@ props C05
 //@ safety C12
-//@ requires [C05 fresh-storage] len(nodeIds) > 0 ==> freshStorage(this.wal)
-//@ requires [wf] this.raftMu != nil && this.log != nil
+//@ requires [wf] this.raftMu != nil && this.log != nil && this.raftTransport != nil && !isnil(this.wal)
 //@ modifies *
 
 //@ func (*storage.partition).unloadRaft
 //@ props C05 C06
 //@ assume
-//@ modifies *
-
-// the allocator loop: a watched partition assigned to this node gets its raft group loaded
-//@ func (*storage.Allocator).run
-//@ props C05
-//@ safety C12
-//@ requires [wf] this.clusterConn != nil
 //@ modifies *
